@@ -15,6 +15,7 @@
 package proxycore
 
 import (
+	"bytes"
 	"context"
 	"encoding/hex"
 	"errors"
@@ -349,6 +350,8 @@ func (c *ClientConn) maybePrepareAndExecute(request Request, raw *frame.RawFrame
 				err = c.Send(&prepareRequest{
 					prepare:     prepareFrame,
 					origRequest: request,
+					id:          msg.Id,
+					conn:        c,
 				})
 			}
 			if err != nil {
@@ -604,6 +607,8 @@ func (i *internalRequest) OnResult(raw *frame.RawFrame) {
 type prepareRequest struct {
 	prepare     *frame.RawFrame
 	origRequest Request
+	id          []byte      // The ID the server reported as unprepared
+	conn        *ClientConn // The connection the statement is prepared on
 }
 
 func (r *prepareRequest) Execute(_ bool) {
@@ -628,6 +633,22 @@ func (r *prepareRequest) OnResult(raw *frame.RawFrame) {
 	next := false // If there's no error then we re-try on the original host
 	if raw.Header.OpCode == primitive.OpCodeError {
 		next = true // Try the next node
+	} else if r.conn != nil && !r.preparedWithSameID(raw) {
+		// The server prepared the cached statement under another ID than the one it reported as unprepared. Executing
+		// the original request on this host again would get the same "unprepared" error, and so on, forever.
+		r.conn.logger.Error("statement prepared with a different ID than the one that was unprepared",
+			zap.String("host", r.conn.conn.RemoteAddr().String()),
+			zap.String("id", hex.EncodeToString(r.id)))
+		next = true
 	}
 	r.origRequest.Execute(next)
+}
+
+func (r *prepareRequest) preparedWithSameID(raw *frame.RawFrame) bool {
+	frm, err := r.conn.getCodec().ConvertFromRawFrame(raw)
+	if err != nil {
+		return false
+	}
+	msg, ok := frm.Body.Message.(*message.PreparedResult)
+	return ok && bytes.Equal(msg.PreparedQueryId, r.id)
 }
